@@ -13,6 +13,7 @@ mod c05;
 mod c06;
 mod c07;
 mod c08;
+mod c09;
 mod c11;
 mod c12;
 mod c13;
@@ -44,6 +45,7 @@ fn main() {
         "c18-replay" => c18::replay(rest),
         "c18-parse" => c18::parse(rest),
         "c16-queue" => c16::queue(rest),
+        "c09-drive" => c09::drive(rest),
         "c11-drive" => c11::drive(rest),
         "c12-drive" => c12::drive(rest),
         "c13-drive" => c13::drive(rest),
